@@ -61,6 +61,21 @@ fn run_case(related: &[&[usize]], standalone: &[usize], max_size: usize, track: 
 
     // ---- reference decoder over every produced message
     let header = 1 + 1 + if track { 1 } else { 0 } + 2;
+    let mut chunks_fit = true;
+    for group in related.iter() {
+        let mut chunk = 0;
+        for &size in group.iter() {
+            chunk += 2 + size;
+        }
+        if chunk + header > max_size {
+            chunks_fit = false;
+        }
+    }
+    for &size in standalone {
+        if 2 + size + header > max_size {
+            chunks_fit = false;
+        }
+    }
     let mut message_of = [usize::MAX; MAX_ENTITIES];
     let mut n_messages = 0usize;
     let mut total_chunks_size = 0usize;
@@ -101,6 +116,8 @@ fn run_case(related: &[&[usize]], standalone: &[usize], max_size: usize, track: 
             listed += 1;
         }
         assert!(pos == m.len());
+        // (iii) when every entity / relationship group fits, no message exceeds the maximum size
+        assert!(!chunks_fit || m.len() <= max_size);
         assert!(registered.len() == listed);
         assert!(registered_tick == this_run);
         total_chunks_size += m.len() - header;
@@ -150,11 +167,6 @@ fn run_case(related: &[&[usize]], standalone: &[usize], max_size: usize, track: 
         // (iv) everything fits: exactly one message
         assert!(n_messages == 1);
     }
-    if every_chunk_fits {
-        // (iii) no message exceeds the maximum size
-        // (re-scan is unnecessary: sizes were summed per message above only in total; check via count bound)
-        assert!(n_messages * max_size >= all + n_messages * header || n_messages == 0);
-    }
     core::mem::forget((server, ticks, entity_buffer, mutations, serialized));
     n_messages
 }
@@ -169,14 +181,15 @@ const MAX: usize = 24;
 // TIER: quick
 // TIMEOUT: 1500
 // DRIVES: Mutations::send, Mutations::add_entity, Mutations::add_component, Mutations::resize_related, Mutations::start_entity, EntityChunks::iter, EntityChunks::iter_flatten, can_pack, ChangeRanges::size_with_components_size, ClientTicks::register_mutate_message
-// BOUNDS: maximum message size 24, payload sizes from {4, 12, 26} (chunk = 2 + payload, header 4 or 5); scenarios (graphs + standalone, tracking): []+[S]; []+[M, M]; []+[M, S, M]; every message decoded by the reference decoder; stand-in maps CAP 4; unwind 30
+// BOUNDS: maximum message size 24, payload sizes from {4, 12, 26} (chunk = 2 + payload, header 4 or 5); scenarios (graphs + standalone, tracking): []+[M, S] (exact fit); []+[M, 5] and []+[M, 6] (one and two bytes over the maximum); []+[M, S, M]; every message decoded by the reference decoder; stand-in maps CAP 4; unwind 30
 #[kani::proof]
 #[kani::unwind(30)]
 #[kani::stub(<bytes::Bytes as core::ops::Drop>::drop, noop_bytes_drop)]
 #[kani::stub(log::max_level, log_off)]
 fn c10_send_standalone() {
-    run_case(&[], &[S], MAX, false);
-    run_case(&[], &[M, M], MAX, false);
+    run_case(&[], &[M, S], MAX, false); // 4 + 14 + 6 = 24: exactly the maximum
+    run_case(&[], &[M, 5], MAX, false); // 25: one byte over
+    run_case(&[], &[M, 6], MAX, false); // 26: two bytes over
     let n = run_case(&[], &[M, S, M], MAX, false);
     kani::cover!(n >= 2, "last scenario produced the expected number of messages");
     kani::cover!(true, "all scenarios executed");
@@ -309,4 +322,13 @@ fn c10_tracking_reserves_count_size() {
 fn c10_tracking_overfills_message() {
     let m = run_case(&[], &[M, M], MAX, true);
     kani::cover!(m >= 1, "scenario executed");
+}
+
+// ---- accessors for harnesses in other modules
+pub(crate) fn standalone_len(mutations: &Mutations) -> usize {
+    mutations.standalone.len()
+}
+
+pub(crate) fn standalone_components_len(mutations: &Mutations, i: usize) -> usize {
+    mutations.standalone[i].ranges.components_len
 }
